@@ -107,6 +107,8 @@ pub enum InlineAct {
     SendRequest { tag: u32 },
     /// user ping through the PingPong handle
     Ping,
+    /// drop the last SendRequest handle (client)
+    DropSr,
 }
 
 #[derive(Serialize, Deserialize, Clone, Debug, PartialEq)]
@@ -117,6 +119,9 @@ pub struct InlineStep {
     /// fire at the nth callback of that kind (1-based)
     pub nth: usize,
     pub act: InlineAct,
+    /// if > 0: fire at the first callback of that kind once this many quiescences have passed (nth is ignored)
+    #[serde(default)]
+    pub min_q: usize,
 }
 
 #[derive(Serialize, Deserialize, Clone, Debug)]
